@@ -320,7 +320,8 @@ class C11(Prop):
 A_SLY_LEX = ("sly.lex.Lexer.tokenize is under a STEP contract (no longer assumed): every path of the real loop body equals the documented scanner step (apply the current "
              "state's master regex with re.match at the index; remap; call the token function if any; drop ignored names and None results; literals; error(t) when nothing "
              "matches) on every state, and begin/push_state/pop_state are proved to switch the tables; assumed: re.Pattern.match contract, generator protocol (A-gen), "
-             "token functions deterministic with self.index >= 0; the stream is the iteration of the step (induction on iterations, paper step)")
+             "token functions deterministic with self.index >= 0; the stream is the iteration of the step (induction on iterations, paper step); dropped by the extraction: the "
+             "try/finally around the loop (write-back of index/lineno on exit) and the _mark/_accept/_reject closures; termination is not verified")
 A_LEX_INDUCTION = ("step equivalence for every remaining text => token-stream equality for every text, by induction on the number of scanner steps (paper step; "
                    "both scanners are memoryless apart from the state)")
 A_RX = ("preferred-match classification (unique / longest / shortest) of each rule under Python's backtracking semantics follows the syntactic criterion stated in rxvc/rx.py; "
@@ -354,7 +355,8 @@ A_SLY_YACC = ("sly.yacc.Parser.parse is under a STEP contract (no longer assumed
               "body equals the textbook LR(1) driver step with default reductions (shift / reduce with the action's value / accept / error() call) on every configuration; "
               "assumed: LR well-formedness of configurations (from the tables, which the lr:* obligations validate against an independent LALR(1) construction), grammar actions "
               "deterministic, LR parsing theory (a run of the LR machine on correct tables yields the unique parse selected by the precedence rules; paper step); recovery after "
-              "error() is unreachable because error() raises (discharged separately) and is not covered")
+              "error() is unreachable because error() raises (discharged separately) and is not covered; the position side tables (_line_positions/_index_positions) are "
+              "outside the contract; termination is not verified")
 A_PYDANTIC = "assumed pydantic-v1 validation model (spec/pydantic_model.py), cross-checked against the real classes on an exemplar pool on every run"
 A_SUBST = ("A-subst: a parenthesised expression, a literal token, a non-keyword NAME and a run of complete statement lines at a deeper uniform indentation can replace a placeholder "
            "of the same kind without changing the rest of CPython's parse tree (up to CPython's nesting limits)")
